@@ -34,6 +34,8 @@ type ConnPlan struct {
 	After   string // ... then: "healthy" keep answering | "close" EOF right behind the last reply | "silent" |
 	//          "reset" the next Write fails | "rst" the next Write succeeds and the read side then fails
 	HoldAll bool // do not answer until Release() (to build up concurrent in-flight queries)
+	// SlowClose: the client's Close() of this connection takes this long (a TLS close_notify flush, a slow kernel).
+	SlowClose time.Duration
 }
 
 var ErrDialInjected = errors.New("poolx: injected dial error")
@@ -103,6 +105,7 @@ type FakeConn struct {
 	eof       bool  // server closed: EOF once buf is drained
 	rerr      error // read side error once buf is drained
 	closed    bool
+	closeSeq  int64
 	answered  int
 	inflight  int
 	MaxInFl   int
@@ -132,6 +135,10 @@ func newFakeConn(id int, p ConnPlan, release chan struct{}) *FakeConn {
 }
 
 var writeHook atomic.Pointer[func(conn, call int)]
+var deadHook atomic.Pointer[func(call int, closeSeq int64)]
+
+// seq orders pass starts and client-side closes.
+var seq atomic.Int64
 
 func (c *FakeConn) Read(p []byte) (int, error) {
 	c.mu.Lock()
@@ -179,6 +186,9 @@ func (c *FakeConn) Write(p []byte) (int, error) {
 	defer c.mu.Unlock()
 	c.Writes++
 	if c.closed {
+		if f := deadHook.Load(); f != nil {
+			(*f)(call, c.closeSeq)
+		}
 		return 0, net.ErrClosed
 	}
 	exhausted := c.answered+c.inflight >= c.plan.Answer && c.plan.After != "healthy"
@@ -223,12 +233,60 @@ func (c *FakeConn) Write(p []byte) (int, error) {
 }
 
 func (c *FakeConn) Close() error {
+	if c.plan.SlowClose > 0 {
+		time.Sleep(c.plan.SlowClose)
+	}
 	c.mu.Lock()
+	if !c.closed {
+		c.closeSeq = seq.Add(1)
+	}
 	c.closed = true
 	c.Closes++
 	c.cond.Broadcast()
 	c.mu.Unlock()
 	return nil
+}
+
+// Kill makes the server side go away now: readers see EOF after the buffered bytes.
+func (c *FakeConn) Kill() {
+	c.mu.Lock()
+	c.eof = true
+	c.cond.Broadcast()
+	c.mu.Unlock()
+}
+
+// dead: the server side is gone; clientClosed: the client has called Close.
+func (c *FakeConn) state() (dead, clientClosed bool) {
+	c.mu.Lock()
+	defer c.mu.Unlock()
+	exhausted := c.answered+c.inflight >= c.plan.Answer && (c.plan.After == "reset" || c.plan.After == "rst" || c.plan.After == "close")
+	return c.eof || c.rerr != nil || exhausted, c.closed
+}
+
+// StaleNow counts connections whose server side is gone and that the client has not closed yet.
+func (w *World) StaleNow() int {
+	w.mu.Lock()
+	cs := append([]*FakeConn(nil), w.Conns...)
+	w.mu.Unlock()
+	n := 0
+	for _, c := range cs {
+		if d, cl := c.state(); d && !cl {
+			n++
+		}
+	}
+	return n
+}
+
+// WaitNoStale waits until the client has closed every connection whose server side is gone.
+func (w *World) WaitNoStale(d time.Duration) bool {
+	deadline := time.Now().Add(d)
+	for time.Now().Before(deadline) {
+		if w.StaleNow() == 0 {
+			return true
+		}
+		time.Sleep(200 * time.Microsecond)
+	}
+	return false
 }
 
 func (c *FakeConn) Stats() (writes, maxInflight, closes int) {
@@ -271,11 +329,14 @@ func NewReuse(w *World) *transport.ReuseConnTransport {
 // ---------- per-query observation ----------
 
 type Pass struct {
+	Dead                      bool // the query was written to a connection the client had closed before this pass began
+	Start                     int64
 	Acq, Created, Ok, Written bool
 	Conn                      int
 }
 
 type CallObs struct {
+	Stale     int // connections dead on the server side but still open at the client when the query started
 	Idx       int
 	Passes    []Pass
 	Err       error
@@ -330,7 +391,7 @@ func NewSession(pipeline bool, w *World, t Transport) *Session {
 		}
 		co := s.calls[idx]
 		if attempt {
-			co.Passes = append(co.Passes, Pass{Conn: -1})
+			co.Passes = append(co.Passes, Pass{Conn: -1, Start: seq.Add(1)})
 		} else if created && len(co.Passes) > 0 {
 			co.Passes[len(co.Passes)-1].Created = true
 		}
@@ -346,6 +407,17 @@ func NewSession(pipeline bool, w *World, t Transport) *Session {
 		}
 	}
 	writeHook.Store(&f)
+	g := func(call int, closeSeq int64) {
+		s.mu.Lock()
+		defer s.mu.Unlock()
+		if co := s.calls[call]; co != nil && len(co.Passes) > 0 {
+			// dead on arrival: the client had closed the connection before this pass even began
+			if p := &co.Passes[len(co.Passes)-1]; closeSeq < p.Start {
+				p.Dead = true
+			}
+		}
+	}
+	deadHook.Store(&g)
 	return s
 }
 
@@ -353,6 +425,7 @@ func NewSession(pipeline bool, w *World, t Transport) *Session {
 func (s *Session) End() {
 	verifhook.Set(nil)
 	writeHook.Store(nil)
+	deadHook.Store(nil)
 	sessMu.Unlock()
 }
 
@@ -363,7 +436,7 @@ func (s *Session) Start(idx int) {
 	q.SetQuestion(fmt.Sprintf("q%d.", idx), dns.TypeA)
 	q.Id = uint16(idx * 7)
 	qb, _ := q.Pack()
-	co := &CallObs{Idx: idx, Tag: -1, Conns: map[int]bool{}}
+	co := &CallObs{Idx: idx, Tag: -1, Conns: map[int]bool{}, Stale: s.W.StaleNow()}
 	d := make(chan struct{})
 	s.mu.Lock()
 	s.calls[idx] = co
